@@ -990,7 +990,7 @@ def idx_tag(shape, specs):
     return f"ndim={len(shape)},shape={shape_tag(shape)},idx=({' , '.join(specs)})".replace(" ", "")
 
 
-def idx_setup(ctx, name, cases, mask_options=("even",), nf=2):
+def idx_setup(ctx, name, cases, mask_options=("full",), nf=2):
     ci, (shape, specs) = pick(ctx, name, cases)
     _, mask = pick(ctx, name + "_cells", list(mask_options))
     v = mk_vec(ctx, shape, nf, mask)
@@ -1054,11 +1054,68 @@ def gi_setup(ctx):
     return s
 
 
+def describe_index(ob):
+    if isinstance(ob, Sym):
+        return "i"
+    if ob is None:
+        return "None"
+    if isinstance(ob, slice):
+        return ":".join("" if x is None else str(x) for x in (ob.start, ob.stop, ob.step))
+    if isinstance(ob, np.ndarray):
+        return "a[" + ",".join(str(int(x)) for x in ob) + "]"
+    if isinstance(ob, list):
+        return "[" + ",".join(str(int(x)) for x in ob) + "]"
+    return str(int(ob))
+
+
+def gi_prepare(s):
+    """At call sites only `self` and `idx` are bound: derive the description the contract clauses are written over."""
+    if hasattr(s, "specs"):
+        return s
+    s.vshape = tuple(s.self.fields["_shape"])
+    if strlike(s.idx):
+        s.specs, s.objs = ("field",), []
+    else:
+        objs = list(s.idx) if isinstance(s.idx, tuple) else [s.idx]
+        s.specs, s.objs = tuple(describe_index(o) for o in objs), objs
+    s.case = "call"
+    return s
+
+
 def gi_is_field(s):
+    gi_prepare(s)
     return bool(s.specs) and s.specs[0] in ("field", "nofield")
 
 
+def gi_result(ctx, s):
+    """Call-site witness: the addressed cell, a field view, or a new Vector holding the addressed cells (fresh lists)."""
+    gi_prepare(s)
+    o = s.self
+    f = o.fields
+    if gi_is_field(s):
+        for j, nm in enumerate(f["_fields"]):
+            if decide(ctx, str_eq(nm, s.idx)):
+                return Obj(FieldView, dict(vector=o, field_name=s.idx, field_index=j))
+        raise V.OutOfSubset("field view at a call site: the field name is not decided on this path")
+    cells, per_axis = addressed(ctx, s.specs, s.objs, s.vshape, negatives_ok=True)
+    if cells is None:
+        raise V.OutOfSubset("Vector.__getitem__ at a call site with an integer index that is not pinned on this path")
+    lv = leaves_of(o)
+    full_int = len(s.specs) == len(s.vshape) and all(isinstance(ob, (int, Sym)) and not isinstance(ob, bool) for ob in s.objs)
+    if full_int:
+        return lv[cells[0]]
+    new_shape = tuple(len(p) for p in per_axis)
+    data = spec_fresh_nested(new_shape, None)
+    for t, c in zip(cells_of(new_shape), cells):
+        tgt = data
+        for i in t[:-1]:
+            tgt = tgt[i]
+        tgt[t[-1]] = lv[c]
+    return Obj(Vector, dict(_shape=new_shape, _fields=list(f["_fields"]), _units=list(f["_units"]), _name=f["_name"] + "[view]", _data=data, _metadata={}))
+
+
 def gi_ensures(s):
+    gi_prepare(s)
     o, old, r = s.self, s.old, s.result
     out = []
     if gi_is_field(s):
@@ -1119,8 +1176,8 @@ def gi_key_error(s):
 
 
 C_GETITEM = Contract(f"{VEC}:Vector.__getitem__", setup=gi_setup, ensures=gi_ensures, snapshot=lambda s: snap_vec(s.self),
-                     requires=lambda s: inv(s.self) + [("at-most-one-index-per-fixed-dimension", len(s.specs) <= len(s.vshape))],
-                     raises={IndexError: gi_index_error, ValueError: gi_value_error, KeyError: gi_key_error},
+                     requires=lambda s: inv(s.self) + [("at-most-one-index-per-fixed-dimension", len(gi_prepare(s).specs) <= len(s.vshape))],
+                     raises={IndexError: gi_index_error, ValueError: gi_value_error, KeyError: gi_key_error}, result=gi_result,
                      inline=[f"{VEC}:_FieldView.__init__"])
 
 
@@ -1216,7 +1273,7 @@ def sd_tag(shape, specs, vk):
 
 def sd_setup(ctx):
     _, (shape, specs, vk) = pick(ctx, "sd_case", SD_CASES)
-    v = mk_vec(ctx, shape, 2, "even")
+    v = mk_vec(ctx, shape, 2, "full")
     objs = [parse_index(ctx, sp, k) for k, sp in enumerate(specs)]
     return NS(self=v, value=mk_value(ctx, vk, 2), varargs=tuple(objs), specs=specs, objs=objs, vshape=shape, vkind=vk, case=sd_tag(shape, specs, vk))
 
@@ -1301,7 +1358,7 @@ SI_CASES = (
 
 def si_setup(ctx):
     _, (shape, specs, vk) = pick(ctx, "si_case", SI_CASES)
-    v = mk_vec(ctx, shape, 2, "even")
+    v = mk_vec(ctx, shape, 2, "full")
     if specs[0] in ("field", "nofield"):
         n = ctx.fresh("values_len", "int")
         ctx.assume(n.t >= 0)
@@ -1767,6 +1824,53 @@ def arith_contract(name):
 C_ARITH = [arith_contract(n) for n in ARITH]
 
 
+# ---- _FieldView.__getitem__ (through the contract of Vector.__getitem__)
+
+FVGI_CASES = [((2, 3), ("1", "1")), ((2, 3), ("0", "2")), ((2, 3), ("-1", "-2")), ((2, 3), ("0", "1")), ((2, 3), ("0:2", "1")), ((2, 3), ("1",)), ((2, 3), ("[1,0]", "::2")), ((2, 3), ("5", "0")), ((2, 3), ("0", "0:0"))]
+
+
+def fvgi_setup(ctx):
+    _, (shape, specs) = pick(ctx, "fvgi_case", FVGI_CASES)
+    _, j = pick(ctx, "fvgi_col", [0, 1])
+    v = mk_vec(ctx, shape, 2, "even")
+    fv = Obj(FieldView, dict(vector=v, field_name=v.fields["_fields"][j], field_index=j))
+    objs = [parse_index(ctx, sp, k) for k, sp in enumerate(specs)]
+    return NS(self=fv, idx=objs[0] if len(objs) == 1 else tuple(objs), specs=specs, objs=objs, vshape=shape, col=j, case=idx_tag(shape, specs) + f",col={j}")
+
+
+def fvgi_ensures(s):
+    v, old, r, j = s.self.fields["vector"], s.old, s.result, s.col
+    cells, per_axis = addressed(s.ctx, s.specs, s.objs, s.vshape, negatives_ok=True)
+    out = []
+    full_int = len(s.specs) == len(s.vshape) and all(isinstance(ob, int) for ob in s.objs)
+    if full_int:
+        cell = old.frozen[cells[0]]
+        if cell is None:
+            out.append(("unset-cell:returns-None", r is None))
+        else:
+            ok = isinstance(r, SymArr) and r.ndim == 1
+            q = I("q")
+            out.append(("cell:returns-that-column-of-the-addressed-cell",
+                        AND(B(S(r.shape[0]) == S(cell.shape[0])), forall([q], implies(AND(q >= 0, q < lift(cell.shape[0])), lift(r.fn(q)) == lift(cell.fn(q, z3.IntVal(j)))))) if ok else False))
+    else:
+        ok = isinstance(r, Obj) and r.cls is FieldView and isinstance(r.fields.get("vector"), Obj) and r.fields["vector"] is not v
+        parts = [("is-a-field-view-of-a-new-vector", ok)]
+        if ok:
+            w = r.fields["vector"]
+            new_shape = tuple(len(p) for p in per_axis)
+            parts.append(("same-column", r.fields.get("field_index") == j))
+            parts.append(("cells", nesting_ok(w.fields["_data"], new_shape) and all(cell_at(w.fields["_data"], t) is old.leaves[c] for t, c in zip(cells_of(new_shape), cells))))
+        out += conj("slice:returns-the-same-column-of-the-sliced-vector", parts)
+    return out + unchanged(v, old)
+
+
+C_FV_GETITEM = Contract(f"{VEC}:_FieldView.__getitem__", setup=fvgi_setup, ensures=T(fvgi_ensures), snapshot=lambda s: snap_vec(s.self.fields["vector"]),
+                        requires=view_requires,
+                        raises={IndexError: lambda s: NOT(AND(*[in_bounds_term(sp, ob, n, True) for sp, ob, n in zip(s.specs, s.objs, s.vshape)])),
+                                ValueError: lambda s: any(isinstance(ob, slice) and len(range(*ob.indices(n))) == 0 for ob, n in zip(s.objs, s.vshape))},
+                        inline=[f"{VEC}:_FieldView.__init__"])
+
+
 # ------------------------------------------------------------------------------------------------
 # from_data and the property setters
 # ------------------------------------------------------------------------------------------------
@@ -1874,7 +1978,7 @@ C_SET_DATA_PROP = Contract(f"{VEC}:Vector.data.fset", setup=ds_setup, requires=l
                            on_raise=raise_unchanged)
 
 CONTRACTS = [C_NESTED, C_VSHAPE, C_VFIELDS, C_VNUM, C_VUNITS, C_VDATA, C_VINFER, C_INIT, C_FROM_SHAPE, C_COPY, C_GET_DATA, C_GETITEM, C_SET_DATA, C_SETITEM,
-             C_ADD_FIELDS, C_REMOVE_FIELDS, C_VFLATTEN, C_FV_FLATTEN, C_FV_SETFLAT, C_FV_APPLY] + C_ARITH + [C_FROM_DATA, C_SET_UNITS, C_SET_DATA_PROP]
+             C_ADD_FIELDS, C_REMOVE_FIELDS, C_VFLATTEN, C_FV_FLATTEN, C_FV_SETFLAT, C_FV_APPLY] + C_ARITH + [C_FROM_DATA, C_SET_UNITS, C_SET_DATA_PROP, C_FV_GETITEM]
 
 
 # ================================================================================================
@@ -2267,10 +2371,10 @@ def index_cases_inputs(op, cases, with_value=False):
     for c in cases:
         if with_value:
             shape, specs, vk = c
-            out.append(dict(op=op, shape=list(shape), idx=list(specs), value=list(vk) if isinstance(vk, tuple) else vk, mask="even"))
+            out.append(dict(op=op, shape=list(shape), idx=list(specs), value=list(vk) if isinstance(vk, tuple) else vk, mask="full"))
         else:
             shape, specs = c
-            out.append(dict(op=op, shape=list(shape), idx=list(specs), mask="even"))
+            out.append(dict(op=op, shape=list(shape), idx=list(specs), mask="full"))
     return out
 
 
@@ -2522,6 +2626,33 @@ VAL_INPUTS = {
 for _c in (C_VFIELDS, C_VSHAPE, C_VNUM, C_VUNITS):
     _n = _c.func.split(":")[1]
     _c.rt, _c.rt_family = rt_validators, (lambda n=_n: iter([dict(op=n, args=a) for a in VAL_INPUTS[n]]))
+
+
+@quiet
+def rt_fv_getitem(inp):
+    shape, specs, j = tuple(inp["shape"]), inp["idx"], inp.get("col", 0)
+    v, ref = build_pair(shape, 2, "even")
+    objs = [conc_index(sp) for sp in specs]
+    key = objs[0] if len(objs) == 1 else tuple(objs)
+    (k1, r1), (k2, r2) = run_both(lambda: v[f"f{j}"][key], lambda: ref.getitem(key))
+    problems = []
+    if k1 != k2 or (k1 == "raise" and r1 != r2):
+        problems.append(f"v['f{j}'][{specs}]: real {k1} {r1 if k1 == 'raise' else ''}, reference {k2} {r2 if k2 == 'raise' else ''}")
+    elif k1 == "ok":
+        if isinstance(r2, Ref):
+            if type(r1).__name__ != "_FieldView" or r1.field_index != j or state_diff(r1.vector, r2):
+                problems.append("slice of a field view is not the same column of the sliced vector")
+        elif r2 is None:
+            if r1 is not None:
+                problems.append("unset cell: expected None")
+        elif not (isinstance(r1, np.ndarray) and np.array_equal(r1, r2[:, j])):
+            problems.append("did not return that column of the addressed cell")
+    return verdict(problems, "field view indexing = the same column of what Vector indexing returns")
+
+
+FVGI_INPUTS = [dict(op="fv_getitem", shape=list(sh), idx=list(sp), col=j) for sh, sp in FVGI_CASES for j in (0, 1)]
+C_FV_GETITEM.rt, C_FV_GETITEM.rt_family = rt_fv_getitem, (lambda: iter(FVGI_INPUTS))
+C_FV_GETITEM.concretize = lambda ev: dict(op="fv_getitem", shape=list(FVGI_CASES[ev("fvgi_case")][0]), idx=list(FVGI_CASES[ev("fvgi_case")][1]), col=ev("fvgi_col", 0)) if ev("fvgi_case") is not None else None
 
 
 def simple_family(inputs):
@@ -3000,7 +3131,6 @@ ASSUMPTIONS = [
     "from_data / data setter keep the caller's arrays (no copy) - stated in the contracts, not a violation of the statement as written",
     "property setters (fields, units, shape, name, data) are not among the operations listed in the statement; units/data setters are under contract, the fields/shape setters are only "
     "used through __init__ (assigning fewer field names than columns through `v.fields = ...` is not rejected by the code)",
-    "_FieldView.__getitem__ is not under contract",
     "index tuples longer than the number of fixed dimensions (indexing into a cell) are outside the contracts (precondition)",
 ]
 EXPLANATION = ("VCs generated from the real source of Vector / _FieldView / nested_list / the vector validators by symbolic interpretation: real nested python lists with "
